@@ -72,6 +72,13 @@ def run(ctx):
         for k in range(0, 253, 7):
             add("u:%d:%x" % (i, 1 << k), "pow2")
             add("u:%d:%x" % (i, (1 << k) - 1), "pow2-1")
+    # (2b) scalars whose INTERNAL (Montgomery) representation is small or sparse: value = m * 2^-256 mod r
+    # with m a one-limb / single-limb-position pattern (the code inspects limbs before and after FromMont)
+    rinv = pow(1 << 256, -1, R)
+    for i in [0, 3, 5, 100, 255]:
+        for m in [1, 2, 255, 1 << 63, (1 << 64) - 1, rng.randrange(1, 1 << 64), 1 << 64, ((1 << 64) - 1) << 64,
+                  rng.randrange(1, 1 << 64) << 128, rng.randrange(1, 1 << 60) << 192]:
+            add("u:%d:%x" % (i, m * rinv % R), "montgomery-sparse")
     # (3) lengths and density
     for n in [0, 1, 2, 4, 5, 6, 7, 255, 256]:
         if n == 0:
